@@ -52,5 +52,8 @@ func VerifParseCheckpointContract() {
 	} else {
 		rt.Assert(!(sigOK && shape && l0 == origin), "PCP/valid-checkpoint-is-accepted")
 		rt.Assert(cp == nil, "PCP/no-checkpoint-on-error")
+		// the opened note is handed back with every refusal that comes after note.Open
+		rt.Assert((n != nil) == sigOK, "PCP/note-returned-iff-the-note-opened")
+		rt.Cover(n != nil, "pcp/refuses-but-returns-the-note")
 	}
 }
